@@ -29,13 +29,40 @@ INVS = ["TypeOK", "HonestProgress", "DecideIsSpec"]
 PROPS = ["AppendOnly", "Authentic", "RefusalNoEffect", "AcceptShape", "FirstMatch", "Isolation", "ReadExact", "CountersTrue"]
 
 
-def model_check(work, rep, name, c, spec="Spec", emit=True, workers=None, timeout=1800):
+def model_check(work, rep, name, c, spec="Spec", emit=True, workers=None, timeout=1800, edge_cap=None, rng=None):
     cfg = cfg_text(spec=spec, constants=c, invariants=INVS, properties=PROPS, view="View",
                    action_constraints=["Emit"] if emit else [])
     r = require_ok(tlc(work, "MC_Witness", cfg, name=name, workers=workers, timeout=timeout), "design check " + name)
     rep.add_model(name, r)
-    edges = [json.loads(x) for x in r.prints("EDGE")] if emit else []
-    return r, edges
+    if not emit:
+        return r, []
+    if not edge_cap:
+        return r, [json.loads(x) for x in r.prints("EDGE")]
+    # big models: keep every state-changing transition and a bounded random sample of the others per pre-state
+    rng = rng or random.Random(1)
+    kept, quiet, seen = [], {}, {}
+    pat = '"EDGE '
+    for line in r.out.splitlines():
+        if not line.startswith(pat):
+            continue
+        e = json.loads(json.loads(line)[5:])
+        if e["pre"] != e["post"]:
+            kept.append(e)
+            continue
+        k = key(e["pre"])
+        n = seen[k] = seen.get(k, 0) + 1
+        bucket = quiet.setdefault(k, [])
+        if len(bucket) < edge_cap:
+            bucket.append(e)
+        else:
+            j = rng.randrange(n)
+            if j < edge_cap:
+                bucket[j] = e
+    for b in quiet.values():
+        kept += b
+    rep.cov.setdefault("edge_sampling", []).append({"config": name, "transitions_emitted": r.generated, "kept": len(kept), "rule": "all state-changing transitions + <= %d others per state" % edge_cap})
+    r.out = ""
+    return r, kept
 
 
 def judge(work, rep, c, trace_path, name="judge", timeout=3600):
